@@ -1540,6 +1540,25 @@ theorem splitAt_ok {n : Nat} {s : ASlice} (h : ASliceOk n s) (mid : Nat) :
   · exact ⟨h, aSliceOk_empty n⟩
   · exact ⟨h.with_slice _ rfl (by simp; omega), h.with_slice _ rfl (by simp)⟩
 
+/-- (glue) a non-empty in-bounds sub-slice of a known caller buffer. -/
+theorem extOk_at {exts : List (List UInt8)} {b off len : Nat} (h : off + len ≤ (exts.getD b []).length)
+    (hl : 0 < len) : ExtOk exts ⟨.ext b, off, len⟩ := by
+  intro b' hb'
+  simp only [Region.ext.injEq] at hb'; subst hb'
+  refine ⟨?_, h⟩
+  apply Nat.lt_of_not_le; intro hge
+  simp only [List.getD_eq_getElem?_getD, List.getElem?_eq_none hge, Option.getD_none, List.length_nil] at h
+  omega
+
+theorem WorldInv.pushBorrowed_at {w w' : World} {i b off len : Nat} (hw : WorldInv w)
+    (h : w.pushBorrowed i ⟨.ext b, off, len⟩ = some w') (hb : off + len ≤ (w.exts.getD b []).length) :
+    WorldInv w' := by
+  by_cases h0 : len = 0
+  · obtain ⟨v, hv, ⟨_, rfl⟩ | ⟨hpos, _⟩⟩ := pushBorrowed_spec h
+    · exact hw
+    · simp only at hpos; omega
+  · exact (hw.pushBorrowed_ext h (extOk_at hb (by omega)) (by intro k hk; simp at hk)).1
+
 /-- (N), (G), (A), (E) are preserved by every operation of the vocabulary. -/
 theorem WorldInv.step {w w' : World} {op : WOp} (hw : WorldInv w) (h : w.step op = some w') : WorldInv w' := by
   cases op with
@@ -1837,6 +1856,20 @@ theorem WorldInv.step {w w' : World} {op : WOp} (hw : WorldInv w) (h : w.step op
       cases res with
       | ok a => simp at h; subst h; exact hw2.addASlice (hres a rfl)
       | error k => simp at h; subst h; exact hw2
+  | lend bs => simp [World.step, World.addExt] at h; subst h; exact hw.with_exts [bs]
+  | pushAt i b off len =>
+    simp only [World.step] at h
+    split at h
+    · rename_i hb
+      rcases push_cases h with h | h
+      · exact (hw.pushCopy h).1
+      · exact hw.pushBorrowed_at h hb
+    · simp at h
+  | pushBorrowedAt i b off len =>
+    simp only [World.step] at h
+    split at h
+    · rename_i hb; exact hw.pushBorrowed_at h hb
+    · simp at h
 
 
 /-! ### Histories -/
